@@ -69,6 +69,25 @@ def inventory(rep, E, ix):
             n += 1
             rep.check(not is_mutable_display(d), R, ix.site(f), "default argument `%s` of %s is not a mutable object" % (u(d), q), key="%s|default %s" % (q, u(d)))
     rep.info(R, "blackbirdParser/blackbirdLexer", "generated classes hold decisionsToDFA / sharedContextCache at class level: prediction caches, semantically transparent (trusted runtime)")
+    # process-wide state of libraries and the interpreter
+    SETTERS = ("np.seterr", "numpy.seterr", "np.seterrcall", "np.set_printoptions", "warnings.simplefilter", "warnings.filterwarnings", "warnings.resetwarnings", "sys.setrecursionlimit",
+               "locale.setlocale", "random.seed", "np.random.seed", "os.chdir", "os.environ.update", "os.putenv", "sym.init_printing", "decimal.setcontext", "functools.lru_cache", "lru_cache",
+               "functools.cache", "cache")
+    found = 0
+    for q, f in ix.funcs.items():
+        for c in ast.walk(f.node):
+            if isinstance(c, ast.Call) and u(c.func) in SETTERS:
+                found += 1
+                rep.bad(R, ix.site(f, c), "the package does not change process-wide library / interpreter state", "`%s` persists beyond the load (also when the load fails before any restore)" % " ".join(u(c).split())[:60],
+                        key="%s|%s" % (q, u(c.func)))
+            if isinstance(c, ast.Subscript) and u(c.value) == "os.environ" and isinstance(c.ctx, ast.Store):
+                rep.bad(R, ix.site(f, c), "the package does not change the process environment", key="%s|environ" % q)
+        for d in f.node.decorator_list:
+            if u(d).split("(")[0] in ("functools.lru_cache", "lru_cache", "functools.cache", "cache"):
+                found += 1
+                rep.bad(R, ix.site(f), "no function result is memoised across loads", "@%s keeps results (and their arguments) alive for the life of the process" % u(d), key="%s|memo" % q)
+    if not found:
+        rep.ok(R, "package", "no call changes process-wide library or interpreter state (np.seterr, warnings filters, recursion limit, locale, seeds, memoisation decorators)")
     return tables
 
 
